@@ -200,7 +200,6 @@ func ChildIso(args []string) int {
 		plain := DefaultCfg()
 		tested := DefaultCfg()
 		tested.Tested = P
-		other := "other/" + P + "x"
 		payload := func(k int) *Mock { return NewMock(fmt.Sprintf("tested/%d/%d", i, k), 150, int64(7000+10*i+k)) }
 		hitFP := func(c Cfg, ip string) (bool, string) {
 			m := &Mock{}
@@ -234,19 +233,22 @@ func ChildIso(args []string) int {
 			}
 			tr.Checks += 3
 		}
-		// 3. other packages are cached under the tested configuration and shared with the plain one
-		po := payload(9)
-		fo, _ := Fingerprint(po)
-		if !tested.BC().Store(po, other, t0) {
-			bad("Store(%q) refused with TestedPackage=%q", other, P)
+		// 3. other packages – including near misses of the name – are cached under the tested
+		// configuration and shared with the plain one
+		for j, other := range []string{"other/" + P + "x", P + "x", P + "_tes", P + "_test2", P + "_test/sub", P + "/sub", "pre" + P, "_test"[1:] + P} {
+			po := payload(10 + j)
+			fo, _ := Fingerprint(po)
+			if !tested.BC().Store(po, other, t0) {
+				bad("Store(%q) refused with TestedPackage=%q", other, P)
+			}
+			if h, f := hitFP(tested, other); !h || f != fo {
+				bad("Load(%q) with TestedPackage=%q: hit=%v content_ok=%v", other, P, h, f == fo)
+			}
+			if h, f := hitFP(plain, other); !h || f != fo {
+				bad("Load(%q) under the plain configuration: hit=%v content_ok=%v", other, h, f == fo)
+			}
+			tr.Checks += 3
 		}
-		if h, f := hitFP(tested, other); !h || f != fo {
-			bad("Load(%q) with TestedPackage=%q: hit=%v content_ok=%v", other, P, h, f == fo)
-		}
-		if h, f := hitFP(plain, other); !h || f != fo {
-			bad("Load(%q) under the plain configuration: hit=%v content_ok=%v", other, h, f == fo)
-		}
-		tr.Checks += 3
 		out.Tested = append(out.Tested, tr)
 	}
 	WriteResult(job.Out, out)
@@ -256,16 +258,27 @@ func ChildIso(args []string) int {
 // ---------------------------------------------------------------- damage
 
 type DamageJob struct {
-	Scratch    string
-	Payload    PayloadSpec
-	Shard, Of  int
-	TruncAll   bool  // every offset 0..len-1
-	TruncExtra int   // else: boundaries + this many seeded offsets
-	FlipMasks  []int // exhaustive single-byte corruption with these masks (all offsets)
-	Random     int   // this many seeded (offset, mask) corruptions
-	Seed       int64
-	Special    bool // zero-length, directory, unreadable, trailing garbage …
-	Out        string
+	Scratch     string
+	Payload     PayloadSpec
+	Shard, Of   int
+	TruncAll    bool // every offset 0..len-1
+	TruncAllMax int  // … or whenever the file is at most this long
+	FlipAllMax  int  // exhaustive flips only if the file is at most this long (0 = always)
+	TruncExtra  int  // else: boundaries + this many seeded offsets
+	Sentinels   []DamageSentinel
+	FlipMasks   []int // exhaustive single-byte corruption with these masks (all offsets)
+	Random      int   // this many seeded (offset, mask) corruptions
+	Seed        int64
+	Special     bool // zero-length, directory, unreadable, trailing garbage …
+	Out         string
+}
+
+// DamageSentinel is a fixed damaged-entry case (sentinels/C20/damage.json).
+type DamageSentinel struct {
+	Name         string
+	Op           string // "flip" | "trunc"
+	Offset, Mask int
+	FileSHA      string // of the undamaged entry the offsets refer to
 }
 
 type DamageHit struct {
@@ -277,16 +290,17 @@ type DamageHit struct {
 }
 
 type DamageOut struct {
-	Payload     PayloadSpec
-	FileLen     int
-	FileSHA     string
-	Boundaries  int
-	Truncations int
-	Flips       int
-	Randoms     int
-	Specials    int
-	Miss        int
-	HitEqual    int
+	Payload      PayloadSpec
+	FileLen      int
+	FileSHA      string
+	Boundaries   int
+	Truncations  int
+	Flips        int
+	Randoms      int
+	Specials     int
+	SentinelsRun int
+	Miss         int
+	HitEqual     int
 	// hits with different content, split by what the independent strict reader says about the file
 	HitDiffIntegrity int // strict reader rejects the file (checksum/length/stream error): integrity check missing
 	HitDiffOther     int
@@ -330,6 +344,14 @@ func ChildDamage(args []string) int {
 
 	n := 0
 	mine := func() bool { n++; return job.Of <= 1 || (n-1)%job.Of == job.Shard }
+	perClass := map[string]int{}
+	addSample := func(h DamageHit) {
+		cls := fmt.Sprint(h.Panic != "", h.StrictErr != "", h.Op)
+		if perClass[cls] < 4 {
+			perClass[cls]++
+			out.Samples = append(out.Samples, h)
+		}
+	}
 	judge := func(op string, off, mask int, data []byte) {
 		if data != nil {
 			if err := os.WriteFile(path, data, 0o644); err != nil {
@@ -355,9 +377,7 @@ func ChildDamage(args []string) int {
 				out.PanicsIntegrity++
 			}
 			h.What = "Load panicked"
-			if len(out.Samples) < 12 {
-				out.Samples = append(out.Samples, h)
-			}
+			addSample(h)
 		case !hit:
 			out.Miss++
 		default:
@@ -381,15 +401,13 @@ func ChildDamage(args []string) int {
 			if m, ok := into.(*Mock); ok {
 				h.What += fmt.Sprintf("; Name=%.60q… Nums=%d Blob=%d bytes", m.Name, len(m.Nums), len(m.Blob))
 			}
-			if len(out.Samples) < 12 {
-				out.Samples = append(out.Samples, h)
-			}
+			addSample(h)
 		}
 	}
 
 	// truncations
 	var offs []int
-	if job.TruncAll {
+	if job.TruncAll || len(orig) <= job.TruncAllMax {
 		for o := 0; o < len(orig); o++ {
 			offs = append(offs, o)
 		}
@@ -420,6 +438,9 @@ func ChildDamage(args []string) int {
 	// exhaustive flips
 	buf := make([]byte, len(orig))
 	for _, m := range job.FlipMasks {
+		if job.FlipAllMax > 0 && len(orig) > job.FlipAllMax {
+			break
+		}
 		for o := 0; o < len(orig); o++ {
 			if !mine() {
 				continue
@@ -442,6 +463,23 @@ func ChildDamage(args []string) int {
 			buf[o] ^= byte(m)
 			out.Randoms++
 			judge("random", o, m, buf)
+		}
+	}
+	for _, sn := range job.Sentinels {
+		if job.Shard != 0 {
+			break
+		}
+		if sn.FileSHA != out.FileSHA || sn.Offset >= len(orig) {
+			out.Inconclusive = append(out.Inconclusive, "sentinel "+sn.Name+": entry bytes drifted")
+			continue
+		}
+		out.SentinelsRun++
+		if sn.Op == "trunc" {
+			judge("trunc", sn.Offset, 0, orig[:sn.Offset])
+		} else {
+			copy(buf, orig)
+			buf[sn.Offset] ^= byte(sn.Mask)
+			judge("flip", sn.Offset, sn.Mask, buf)
 		}
 	}
 	if job.Special && job.Shard == 0 {
@@ -594,6 +632,7 @@ func ChildVerify(args []string) int {
 
 type ConcJob struct {
 	Scratch    string
+	WorkDir    string // holds the keypath file written by the priming process
 	Role       string // "writer" | "reader"
 	Index      int
 	Payloads   []PayloadSpec
@@ -726,9 +765,9 @@ func ChildConc(args []string) int {
 }
 
 // keyPathByProbe returns the path of the contended entry, which a priming process (ChildPrime)
-// recorded in <scratch>/keypath.
+// recorded in <workdir>/keypath.
 func keyPathByProbe(root string, job ConcJob) string {
-	b, err := os.ReadFile(filepath.Join(job.Scratch, "keypath"))
+	b, err := os.ReadFile(filepath.Join(job.WorkDir, "keypath"))
 	if err != nil {
 		return ""
 	}
@@ -748,13 +787,14 @@ func ChildPrime(args []string) int {
 	if !ok || path == "" {
 		return 3
 	}
-	os.WriteFile(filepath.Join(job.Scratch, "keypath"), []byte(path), 0o644)
+	os.WriteFile(filepath.Join(job.WorkDir, "keypath"), []byte(path), 0o644)
 	return 0
 }
 
 // RaceMain is the body of the -race binary: goroutine writers and readers in one process.
 type RaceJob struct {
 	Scratch    string
+	WorkDir    string
 	Payloads   []PayloadSpec
 	Writers    int
 	Readers    int
@@ -781,7 +821,7 @@ func RaceMain(args []string) int {
 	const ip = "race/contended"
 	p0, _ := job.Payloads[0].Make()
 	kp, _ := StoreLocate(root, DefaultCfg().BC(), p0, ip, time.Unix(1700000000, 0))
-	stop := filepath.Join(job.Scratch, "race-stop")
+	stop := filepath.Join(job.WorkDir, "race-stop")
 	out.Writers = make([]ConcOut, job.Writers)
 	out.Readers = make([]ConcOut, job.Readers)
 	var ww, rw sync.WaitGroup
